@@ -96,6 +96,28 @@ others_unchanged(unsigned except_slot)
             VASSERT(ueq(U(&ch, i), preU[i]), "another reader's unread list changed");
         }
 }
+/* lexicographic minimum of (cycle, pos) over the registered holds: the one quantity through
+ * which readers bound the writer */
+static void
+min_hold(const struct channel* c, size_t* cyc, size_t* pos)
+{
+    *cyc = c->holds.cycles[0];
+    *pos = c->holds.pos[0];
+    for (unsigned i = 1; i < R; ++i)
+        if (i < c->holds.n &&
+            (c->holds.cycles[i] < *cyc || (c->holds.cycles[i] == *cyc && c->holds.pos[i] < *pos))) {
+            *cyc = c->holds.cycles[i];
+            *pos = c->holds.pos[i];
+        }
+}
+static int
+min_hold_moved(void)
+{
+    size_t c0, p0, c1, p1;
+    min_hold(&pre, &c0, &p0);
+    min_hold(&ch, &c1, &p1);
+    return c0 != c1 || p0 != p1;
+}
 static void
 all_unchanged(void)
 {
@@ -338,7 +360,12 @@ main(void)
     if (was_mapped) {
         size_t kk = k < len ? k : len;
         VASSERT(ueq(U(&ch, j), udrop(preU[j], kk)), "C01: unmap did not consume exactly min(k,len) bytes from the front");
-        VASSERT(verif_notify_count > n0, "C03: consuming unmap emitted no notification");
+        /* C03: the writer's wait predicate depends on the readers only through the slowest hold
+         * (lexicographic minimum of (cycle, pos)); whenever this unmap moves that minimum the
+         * sleeping writer must be notified. An unmap that leaves the minimum where it was frees
+         * nothing and may stay silent. */
+        if (min_hold_moved())
+            VASSERT(verif_notify_count > n0, "C03: unmap advanced the slowest hold (space released) without a notification");
     } else {
         VASSERT(ueq(U(&ch, j), preU[j]), "unmap of an unmapped reader changed its position");
     }
